@@ -123,7 +123,12 @@ func (tc *TypeConverter) CollectPatternImports(p KessokuPattern, sourceImports m
 			tc.CollectPatternImports(elem, sourceImports)
 		}
 	case *KessokuProvide:
-		tc.CollectExprImports(kp.FuncExpr, sourceImports)
+		// Synthesized expressions already use output names (registered through AddImport when they
+		// were built); looking those names up among the source imports would resolve them to
+		// whatever package the source file happens to import under the same name.
+		if !kp.Synthesized {
+			tc.CollectExprImports(kp.FuncExpr, sourceImports)
+		}
 	case *KessokuBind:
 		tc.CollectPatternImports(kp.Provider, sourceImports)
 	case *KessokuValue:
